@@ -193,7 +193,7 @@ def main(argv):
     agree = 0
     try:
         coq, _ = es.parse_to_coq(h, sub)
-        model = es.model_eval(coq, tag="c03s", fn="run_session false")
+        model = es.model_eval(coq, tag="c03s", fn="run_session_full false")
         for j, i in enumerate(idx):
             if model[j] is None or "UNMODELLED" in model[j]:
                 continue
